@@ -44,19 +44,45 @@ Proof.
   - sd_cases H; prep; destruct (gdec s); heavy.
 Qed.
 
+Lemma wc_mono : forall s c s' l, step s c = Some (s', l) -> wc s = true -> wc s' = true.
+Proof.
+  intros s c s' l H C. destruct c as [e|w e|]; simpl in H.
+  - io_cases H; close2.
+  - wk_cases H; close2.
+  - sd_cases H; close2.
+Qed.
+
+Lemma conn_mono : forall s c s' l, step s c = Some (s', l) -> conn s = false -> conn s' = false.
+Proof.
+  intros s c s' l H C. destruct c as [e|w e|]; simpl in H.
+  - io_cases H; close2.
+  - wk_cases H; close2.
+  - sd_cases H; close2.
+Qed.
+
 Lemma pres_late : forall s c s' l, Inv s -> step s c = Some (s', l) ->
-  forall w', late_early (wk s' w') = true -> conn s' = false.
+  forall w', late_early (wk s' w') = true -> conn s' = false \/ wc s' = true.
 Proof.
   intros s c s' l I H w'. pose proof (i_late s I w') as L.
   destruct c as [e|w e|]; simpl in H.
   - io_cases H; close2.
-  - pose proof (i_late s I w) as Lw. pose proof (i_safe s I) as SF. pose proof (i_act_excl s I w) as AX.
+  - pose proof (i_late s I w) as Lw. pose proof (i_safe s I) as SF.
     wk_cases H; simpl; wsplit w' w; prep; try solve [heavy].
     (* WPopped -> WSvc0: service() is entered *)
     destruct (gdec s) eqn:G; simpl in *; [|discriminate].
     destruct (SF eq_refl) as [X|[X|X]]; auto.
-    + destruct X as (_ & _ & _ & ST & _). specialize (ST w). rewrite Heqw0 in ST. discriminate.
-    + destruct AX as [_ AX]; auto. congruence.
+    destruct X as (_ & _ & _ & ST & _). specialize (ST w). rewrite Heqw0 in ST. discriminate.
+  - sd_cases H; close2.
+Qed.
+
+Lemma pres_late_b : forall s c s' l, Inv s -> step s c = Some (s', l) ->
+  forall w', late_b (wk s' w') = true -> wc s' = true.
+Proof.
+  intros s c s' l I H w'. pose proof (i_late_b s I w') as L.
+  destruct c as [e|w e|]; simpl in H.
+  - io_cases H; close2.
+  - pose proof (i_late s I w) as Lw.
+    wk_cases H; simpl; wsplit w' w; close2.
   - sd_cases H; close2.
 Qed.
 
@@ -124,22 +150,6 @@ Proof.
 Qed.
 
 
-Lemma conn_mono : forall s c s' l, step s c = Some (s', l) -> conn s = false -> conn s' = false.
-Proof.
-  intros s c s' l H C. destruct c as [e|w e|]; simpl in H.
-  - io_cases H; close2.
-  - wk_cases H; close2.
-  - sd_cases H; close2.
-Qed.
-
-Lemma sdc2_pres : forall s c s' l, step s c = Some (s', l) -> sd s = SdC2 -> conn s' = false \/ sd s' = SdC2.
-Proof.
-  intros s c s' l H C. destruct c as [e|w e|]; simpl in H.
-  - io_cases H; close2.
-  - wk_cases H; close2.
-  - sd_cases H; close2.
-Qed.
-
 Lemma empty_facts : forall s, Inv s -> reqs s = [] -> queue s = 0 /\ forall w, starter (wk s w) = false.
 Proof.
   intros s I R. split.
@@ -173,13 +183,13 @@ Proof.
 Qed.
 
 Lemma pres_safe : forall s c s' l, Inv s -> step s c = Some (s', l) ->
-  gdec s' = true -> conn s' = false \/ Closed s' \/ sd s' = SdC2.
+  gdec s' = true -> conn s' = false \/ Closed s' \/ wc s' = true.
 Proof.
   intros s c s' l I H G'. destruct (gdec s) eqn:G.
   - destruct (i_safe s I G) as [X|[X|X]].
     + left. eapply conn_mono; eauto.
     + destruct (closed_pres s c s' l I X H); auto.
-    + destruct (sdc2_pres s c s' l H X); auto.
+    + right; right. eapply wc_mono; eauto.
   - pose proof (i_cwf s I) as CW. rewrite G in CW.
     destruct c as [e|w e|]; simpl in H.
     + pose proof (i_m2 s I) as M2. pose proof (i_q1 s I) as Q1.
